@@ -4,7 +4,7 @@ Property theorems only; models in Model/Flv*.lean, the independent FLV/AMF0/AVCC
 the statement of the property over parsed FLV in Spec/FlvParse.lean, helper lemmas in
 Lemmas/Flv*.lean.
 -/
-import IpcHub.Lemmas.FlvWriter
+import IpcHub.Lemmas.FlvMux
 import IpcHub.Model.FlvInst
 namespace IpcHub.Props.C08
 open IpcHub.Flv IpcHub.FlvSpec IpcHub.FlvLemmas
@@ -193,5 +193,138 @@ theorem c08_sentinel_witness :
     (∃ bs, clientBytes fixedCfg 4 (src.map toTag) = some bs ∧ checkClient 4 src bs = true ∧
       (parseFlv bs).map (fun r => r.2.map (·.timestamp)) = some [0, 3]) := by
   decide
+
+/-! ## what the muxer writes for a frame sequence -/
+
+/-- **C08 for a frame sequence through `flv.Muxer` + `flv.Writer`.**
+    For every stream (H.264 or H.265, with or without AAC; parameter sets shorter than 2^16
+    bytes, known from frame index `known` on — 0 when the SDP carried them), every
+    `creationdate` string and every frame sequence — any length, any NAL types, any media types —
+    whose carried frames (video; audio iff AAC) from `known` on are admissible (`FrameOk`: a
+    video frame has its NAL header byte, the body fits DataSize, tag time within the signed 32-bit
+    millisecond window, |PTS−DTS| < 2^23 ms):
+
+    * the worker goroutine survives (`false`: no panic escaped), and
+    * the bytes the client receives satisfy `Spec.checkMux`: they parse as FLV (header announcing
+      video and, iff AAC, audio; every tag followed by its exact size); the tags are `onMetaData`
+      (exact ECMA-array count, the right codec ids), then the AVC/HEVC decoder configuration
+      record carrying exactly the stream's SPS/PPS(/VPS) with 4-byte NAL lengths (and the SPS's
+      profile/compatibility/level bytes), then the AAC configuration with the stream's
+      AudioSpecificConfig iff AAC — all with timestamp 0 — then exactly one tag per carried
+      frame from `known` on, in order: a video tag holds one length-prefixed NAL unit equal to
+      the frame's payload, is flagged key frame iff that NAL is an IDR (H.264) / IRAP 16..21
+      (H.265), has CTS = PTS − DTS in ms; an audio tag holds the AAC frame; timestamps are the
+      DTS (video) / PTS (audio) in ms, never wrapped; nothing is written for the frames before
+      `known`, and nothing at all when the parameter sets never become usable. -/
+theorem c08_end_to_end (vm : VideoMeta) (am : AudioMeta) (date : Bytes) (known : Nat) (frames : List Frame)
+    (hcodec : vm.codec ≠ .other)
+    (hs : vm.sps.length < 65536) (hp : vm.pps.length < 65536) (hv : vm.vps.length < 65536)
+    (ha : am.asc.length + 2 < 16777216) (hd : date.length < 65536)
+    (hall : ∀ f ∈ fromStart (srcOf vm am) known frames, carried (srcOf vm am) f = true → FrameOk f) :
+    ∃ bs, muxBytes genCfg vm am date known frames = some (bs, false) ∧
+      checkMux (srcOf vm am) (fromStart (srcOf vm am) known frames) bs = true := by
+  rw [c08_gen_cfg]
+  exact checkMux_muxBytes fixedCfg ⟨rfl, rfl⟩ rfl vm am date known frames hcodec hs hp hv ha hd hall
+
+/-- non-vacuity: an H.264+AAC stream whose parameter sets arrive in band (known = 1), an audio
+    frame first, an IDR with PTS > DTS, a 1-byte NAL with PTS < DTS, times below and above 2^31−1 ms
+    excluded — all carried frames are admissible -/
+example :
+    let vm : VideoMeta :=
+      { codec := .h264, width := 640, height := 480, frameRate := 0, dataRate := 0,
+        sps := [0x67, 0x42, 0xc0, 0x1e, 0xd9], pps := [0x68, 0xcb], vps := [], hevcVps := none, hevcSps := none }
+    let am : AudioMeta :=
+      { aac := true, sampleRate := 44100, sampleSize := 16, channels := 2, dataRate := 0, asc := [0x12, 0x10] }
+    let frames : List Frame := [⟨1, 21000000, 21000000, [0x21]⟩, ⟨0, 40000000, 80000000, [0x65, 0x88]⟩,
+      ⟨1, 44000000, 44000000, []⟩, ⟨0, 2147483647000000, 2147483607000000, [0x41]⟩, ⟨7, 0, 0, []⟩]
+    ∀ f ∈ fromStart (srcOf vm am) 1 frames, carried (srcOf vm am) f = true → FrameOk f := by decide
+
+/-- **One tag per frame** (the per-frame part of the statement, on its own): a carried admissible
+    frame is packetised into exactly one tag, stamped with the low 32 bits of its DTS (video) /
+    PTS (audio) in ms, whose body the independent reader decodes to the source NAL unit with the
+    right key flag and CTS, resp. to the source AAC frame — whatever rebase value `d` the writer
+    then applies. -/
+theorem c08_media_tag (vm : VideoMeta) (am : AudioMeta) (f : Frame) (hcodec : vm.codec ≠ .other)
+    (hc : carried (srcOf vm am) f = true) (hok : FrameOk f) :
+    ∃ t, packetize vm am f = ([t], false) ∧ t.timestamp = u32OfInt (tagTimeMs f) ∧
+      ∀ d, mediaTagCarries (srcOf vm am) f (viewTag t d) = true := by
+  obtain ⟨t, h1, _, h3, h4⟩ := packetize_carried vm am f hcodec hc hok
+  exact ⟨t, h1, h3, h4⟩
+
+/-- frames that are not carried (audio of a stream without AAC, other media types) produce no tag -/
+theorem c08_other_frames_dropped (vm : VideoMeta) (am : AudioMeta) (f : Frame)
+    (h : carried (srcOf vm am) f = false) : packetize vm am f = ([], false) :=
+  packetize_not_carried vm am f h
+
+/-- **Decoder configuration records**: with usable parameter sets the video sequence header exists
+    and, read back by the independent AVCC / HVCC reader, carries exactly one SPS, one PPS (and one
+    VPS) equal to the stream's, 4-byte NAL lengths, key-frame + sequence-header flags, CTS 0; the
+    AAC sequence header carries the AudioSpecificConfig. -/
+theorem c08_config_records (vm : VideoMeta) (am : AudioMeta) (hcodec : vm.codec ≠ .other)
+    (hready : videoMetaReady vm = true)
+    (hs : vm.sps.length < 65536) (hp : vm.pps.length < 65536) (hv : vm.vps.length < 65536)
+    (ha : am.asc.length + 2 < 16777216) :
+    (∃ t, videoSeqHeaderTag vm = .ok t ∧ t.timestamp = 0 ∧ ∀ d, isVideoConfigTag (srcOf vm am) (viewTag t d) = true) ∧
+    (∀ d, isAudioConfigTag (srcOf vm am) (viewTag (audioSeqHeaderTag am) d) = true) := by
+  obtain ⟨t, h1, _, h3, _, _, _, h7⟩ := videoConfig_ok vm am hcodec hready hs hp hv
+  exact ⟨⟨t, h1, h3, h7⟩, fun d => (audioConfig_ok vm am d ha).2.2⟩
+
+/-- The HEVC record's general profile/tier/level bytes are those `init`/`applyPLT` computed from
+    the decoded VPS and SPS (C15's subject), at the positions ISO/IEC 14496-15 gives them. -/
+theorem c08_hevc_record_fields (r : HevcRecord) (vps sps pps : Bytes) (hl : r.lengthSizeMinusOne = 3)
+    (hv : vps.length < 65536) (hs : sps.length < 65536) (hp : pps.length < 65536) :
+    ∃ h, parseHvcc (hevcRecordBytes r vps sps pps) = some h ∧ h.lengthSize = 4 ∧
+      h.arrays = [(32, [vps]), (33, [sps]), (34, [pps])] ∧
+      h.profileSpace = (((r.space <<< 6) ||| (r.tier <<< 5) ||| r.idc) >>> 6).toNat ∧
+      h.tier = ((((r.space <<< 6) ||| (r.tier <<< 5) ||| r.idc) >>> 5) &&& 1).toNat ∧
+      h.profileIdc = (((r.space <<< 6) ||| (r.tier <<< 5) ||| r.idc) &&& 0x1F).toNat ∧
+      h.compat = r.compat.toNat ∧ h.level = r.level.toNat :=
+  parseHvcc_hevcRecord r vps sps pps hl hv hs hp
+
+/-- **Metadata**: the script tag reads back as `onMetaData` with an exact ECMA-array count and the
+    right video (and, iff AAC, audio) codec id. -/
+theorem c08_metadata (vm : VideoMeta) (am : AudioMeta) (date : Bytes) (d : UInt32) (hd : date.length < 4294967296) :
+    isMetaTag (srcOf vm am) (viewTag (metadataTag vm am date) d) = true :=
+  isMetaTag_view vm am date d hd
+
+/-- **Order**, on the tag list itself: with usable parameter sets from frame `known` on, the tags
+    handed to the writer are nothing for the frames before `known`, then — at the first frame
+    from there — metadata, video configuration, AAC configuration iff AAC, and then the media tags
+    of every frame from there on; the worker survives as long as no video frame is empty. -/
+theorem c08_order (vm : VideoMeta) (am : AudioMeta) (date : Bytes) (known : Nat) (frames : List Frame)
+    (hr : videoMetaReady vm = true) (v : Tag) (hv : videoSeqHeaderTag vm = .ok v)
+    (hnd : ∀ f ∈ frames.drop known, (packetize vm am f).2 = false) :
+    muxRun genCfg vm am date known frames =
+      (match frames.drop known with
+       | [] => []
+       | f :: fs => ([metadataTag vm am date, v] ++ (if am.aac then [audioSeqHeaderTag am] else [])) ++
+                    mediaTags vm am (f :: fs), false) := by
+  have hseq : seqHeaders vm am date =
+      ([metadataTag vm am date, v] ++ (if am.aac then [audioSeqHeaderTag am] else []), false) := by
+    simp only [seqHeaders, hv]
+  have := muxLoop_unpacked genCfg (by decide) vm am date known hr _ hseq frames 0 (by simpa using hnd)
+  simp only [Nat.sub_zero] at this
+  unfold muxRun
+  exact this
+
+/-- The pinned tree violated the order part (corpus/C08/seqhdr-without-paramsets.case): SDP without
+    sprop-parameter-sets, an audio frame reaches the muxer before the video parameter sets — the
+    sequence headers were built at that frame, `sps[1]` of the empty SPS panicked after the
+    metadata tag and the worker was gone (`true`); the repaired muxer drops the early frame and
+    carries everything from the first frame with known parameter sets. -/
+theorem c08_seqhdr_witness :
+    let vm : VideoMeta :=
+      { codec := .h264, width := 640, height := 480, frameRate := 0, dataRate := 0,
+        sps := [0x67, 0x42, 0xc0, 0x1e, 0xd9], pps := [0x68, 0xcb], vps := [], hevcVps := none, hevcSps := none }
+    let am : AudioMeta :=
+      { aac := true, sampleRate := 44100, sampleSize := 16, channels := 2, dataRate := 0, asc := [0x12, 0x10] }
+    let frames : List Frame := [⟨1, 21000000, 21000000, [0x21]⟩, ⟨0, 40000000, 80000000, [0x65, 0x88]⟩]
+    -- (worker died?, does the client's stream satisfy C08?, number of tags the client got)
+    let outcome := fun (r : Bytes × Bool) =>
+      (r.2, checkMux (srcOf vm am) (fromStart (srcOf vm am) 1 frames) r.1,
+       (parseFlv r.1).map (fun p => p.2.length))
+    (muxBytes pinnedCfg vm am [] 1 frames).map outcome = some (true, false, some 1) ∧
+    (muxBytes fixedCfg vm am [] 1 frames).map outcome = some (false, true, some 4) := by
+  set_option maxRecDepth 100000 in decide
 
 end IpcHub.Props.C08
